@@ -685,29 +685,32 @@ Qed.
 (* ------------------------------------------------------------------ the oracle's check implies the equivalence *)
 Lemma equiv_check_sound c c' : equiv_check c c' = true → equiv_on (dom c) c c'.
 Proof.
-  unfold equiv_check, equiv_check_gen. rewrite !andb_true_iff.
+  unfold equiv_check, equiv_check_gen. rewrite !andb_true_iff. cbv zeta.
   intros (((((((Hcl & Hcl') & Hac) & Hac') & Hf1) & Hf2) & Hdom) & Hall).
-  apply closedb_spec in Hcl, Hcl'. apply acyclicb_sound in Hac, Hac'.
+  apply closedb_spec in Hcl, Hcl'. apply acyclicb_sound in Hac as [rk Hrk], Hac' as [rk' Hrk'].
   apply bool_decide_eq_true in Hf1, Hf2.
   assert (Hfree : free_nodes c' = free_nodes c) by (apply set_eq; intros x; clear -Hf1 Hf2; set_solver).
   rewrite forallb_forall in Hdom, Hall.
   assert (Hd : ∀ n, n ∈ dom c → n ∈ dom c').
   { intros n Hn. specialize (Hdom n). rewrite bool_decide_eq_true in Hdom. apply Hdom, elem_of_list_In, elem_of_elements, Hn. }
-  assert (Hw : ∀ w, w ∈ all_vals (elements (free_nodes c')) →
-            consistent c (evalc c w) ∧ consistent c' (evalc c' w) ∧ ∀ n, n ∈ dom c → evalc c w n = evalc c' w n).
-  { intros w Hin. apply elem_of_list_In, Hall in Hin. rewrite !andb_true_iff in Hin. destruct Hin as [[H1 H2] H3].
-    split_and!; [by apply consistentb_spec|by apply consistentb_spec|].
-    intros n Hn. rewrite forallb_forall in H3. apply eqb_true_iff, H3, elem_of_list_In, elem_of_elements, Hn. }
+  assert (Hw : ∀ w, w ∈ all_vals (elements (free_nodes c')) → ∃ u u',
+            consistent c u ∧ consistent c' u' ∧ agrees (free_nodes c') u w ∧ agrees (free_nodes c') u' w ∧
+            ∀ n, n ∈ dom c → u n = u' n).
+  { intros w Hin. apply elem_of_list_In, Hall in Hin. rewrite !andb_true_iff in Hin. destruct Hin as [[[[H1 H2] H3] H4] H5].
+    eexists _, _. split_and!; [by apply consistentb_spec|by apply consistentb_spec| | |].
+    - intros n Hn. rewrite eq_on_spec in H3. apply H3. by apply elem_of_elements.
+    - intros n Hn. rewrite eq_on_spec in H4. apply H4. by apply elem_of_elements.
+    - intros n Hn. rewrite forallb_forall in H5. apply eqb_true_iff, H5, elem_of_list_In, elem_of_elements, Hn. }
   split.
   - intros v' Hv'. destruct (all_vals_complete (elements (free_nodes c')) v') as (w & Hin & Hwv).
-    destruct (Hw w Hin) as (Hc & Hc' & Heq). exists (evalc c w). split; [done|].
-    assert (agrees (dom c') v' (evalc c' w)) as Hu.
-    { apply evalc_unique; auto; [by apply consistentb_spec|]. intros n Hn. symmetry. apply Hwv. by apply elem_of_elements. }
+    destruct (Hw w Hin) as (u & u' & Hc & Hc' & Hfu & Hfu' & Heq). exists u. split; [done|].
+    assert (agrees (dom c') v' u') as Hu.
+    { apply (consistent_unique c' rk' Hrk'); auto. intros n Hn. rewrite Hfu' by done. symmetry. apply Hwv. by apply elem_of_elements. }
     intros n Hn. rewrite Heq by done. symmetry. apply Hu. by apply Hd.
   - intros v Hv. destruct (all_vals_complete (elements (free_nodes c')) v) as (w & Hin & Hwv).
-    destruct (Hw w Hin) as (Hc & Hc' & Heq). exists (evalc c' w). split; [done|].
-    assert (agrees (dom c) v (evalc c w)) as Hu.
-    { apply evalc_unique; auto; [by apply consistentb_spec|]. intros n Hn. symmetry. apply Hwv. apply elem_of_elements. by rewrite Hfree. }
+    destruct (Hw w Hin) as (u & u' & Hc & Hc' & Hfu & Hfu' & Heq). exists u'. split; [done|].
+    assert (agrees (dom c) v u) as Hu.
+    { apply (consistent_unique c rk Hrk); auto. intros n Hn. rewrite <- Hfree in Hn. rewrite Hfu by done. symmetry. apply Hwv. by apply elem_of_elements. }
     intros n Hn. rewrite <- Heq by done. symmetry. by apply Hu.
 Qed.
 
